@@ -12,6 +12,8 @@ let kv_of (toks : string list) : (string * string) list =
 let n_of_rid (r : int) : n = if r >= 0 then n_of_int (2 * r) else n_of_int (2 * (- r) + 1)
 
 let parse_ev (e : string) : tev option =
+  (* "@<ms>" suffixes are diagnostics of the runner, not part of the trace *)
+  let e = match String.index_opt e '@' with Some i -> String.sub e 0 i | None -> e in
   let rest () = String.sub e 1 (String.length e - 1) in
   match e.[0] with
   | 'i' | 'k' ->
@@ -88,6 +90,7 @@ let verdict case impl =
   | "F" :: _ ->
     (match impl with
      | "error" :: _ -> "error runner " ^ String.concat " " impl
+     | s :: _ when String.length s >= 4 && String.sub s 0 4 = "skip" -> "ok skipped " ^ s
      | _ ->
        let kv = kv_of impl in
        let get k = try List.assoc k kv with Not_found -> failwith ("missing " ^ k) in
